@@ -234,7 +234,21 @@ def run_sync(seed: int, buffered: bool) -> dict[str, Any]:
                 sc.log({"ev": "ret", "kind": "error:" + type(exc).__name__})
             if t is not None and sc.clock.now - t0 > t + 1e-9:
                 problems.append(f"recv_packet(timeout={t}) took {sc.clock.now - t0} on the fake clock")
+        eof_reported = any(e["ev"] == "ret" and e.get("kind") == "eof" for e in sc.events)
         ep.close()
+        if eof_reported:
+            # "every later call reports it again": also the call made after the endpoint itself was closed - the end of the stream
+            # that was reported stays the answer, and the (closed) transport is not asked again
+            sc.log({"ev": "call", "t": 0})
+            try:
+                ep.recv_packet(timeout=0)
+                sc.log({"ev": "ret", "kind": "packet"})
+            except TimeoutError:
+                sc.log({"ev": "ret", "kind": "timeout"})
+            except ConnectionAbortedError:
+                sc.log({"ev": "ret", "kind": "eof"})
+            except Exception as exc:  # noqa: BLE001
+                sc.log({"ev": "ret", "kind": "error:" + type(exc).__name__})
     evs = traces.uniform(sc.events, EVD)
     if problems:
         evs.append(dict(EVD, ev="problem"))
